@@ -98,7 +98,7 @@ class Run:
     pass
 
 
-def run(case, predict=True, record_criterion=True, need_symmetric=True):
+def run(case, predict=True, record_criterion=True, need_symmetric=True, allow_negative=False):
     np = models.np()
     lib.setup()
     import opfython.math.general as g
@@ -153,7 +153,7 @@ def run(case, predict=True, record_criterion=True, need_symmetric=True):
         r.DQ = [[float(libcall(fn, np.array(X[nt + nv + q], dtype=float), np.array(X[t], dtype=float))) for t in range(nt)] for q in range(nq)]
         r.DV = [[float(libcall(fn, np.array(X[nt + v], dtype=float), np.array(X[t], dtype=float))) for t in range(nt)] for v in range(nv)]
     for row in r.D + r.DQ:
-        if not all(math.isfinite(v) and v >= 0 for v in row):
+        if not all(math.isfinite(v) and (v >= 0 or allow_negative) for v in row):
             return "not_finite_nonneg"
     for i in range(nt):
         for j in range(nt):
@@ -225,6 +225,13 @@ def run(case, predict=True, record_criterion=True, need_symmetric=True):
     return r
 
 
+def _exp(v):
+    try:
+        return math.exp(v)
+    except OverflowError:
+        return math.inf
+
+
 # ------------------------------------------------------------------ reference rules
 def kth_smallest_radius(D, k):
     """r_k(i) = k-th smallest distance from i to the other samples"""
@@ -238,7 +245,7 @@ def ref_pdf_from_distances(D, k, constant, divisor_plus_one=True):
     n = len(D)
     for i in range(n):
         ds = sorted(D[i][j] for j in range(n) if j != i)[:k]
-        s = math.fsum(math.exp(-d / constant) for d in ds)
+        s = sum(_exp(-d / constant) for d in ds)
         out.append(s / (k + 1 if divisor_plus_one else k))
     return out
 
@@ -256,9 +263,11 @@ def admissible_outputs(dq, costs, outputs, k, constant, dmin, dmax, max_density=
     Mset = [t for t in range(n) if dq[t] < dk]
     Tset = [t for t in range(n) if dq[t] == dk]
     r = k - len(Mset)
-    s = math.fsum(math.exp(-d / constant) for d in ds[:k])
+    s = sum(_exp(-d / constant) for d in ds[:k])
     adm = set()
     info = {"tie_at_k": len(Tset) > r, "densities": []}
+    if not math.isfinite(s):
+        return None, info  # the kernel overflows (huge negative "distances"): outside the domain
     for div in (k, k + 1):
         raw = s / div
         cands = []
